@@ -12,7 +12,8 @@ RULE = ("solve_{pubo,qubo,puso,quso}_bruteforce on raw dicts and all ten model t
         "all_solutions both ways; and the solve_bruteforce methods of the ten types (PCBO/PCSO with recorded "
         "constraints). Oracle: independent enumeration with the same predicate; argument snapshot. Non-trivial = "
         ">= 2 variables and the valid set has >= 2 elements; distinct = digest of (function, type, terms, predicate)")
-TIERS = {"quick": {"shards": 8, "cases": 600}, "thorough": {"shards": 16, "cases": 8000}}
+TIERS = {"quick": {"shards": 8, "cases": 6000}, "thorough": {"shards": 16, "cases": 30000}}
+FLOOR_BASE = {"quick": 600, "thorough": 8000}    # case counts the floors below were calibrated for; the launcher scales them
 FUNCS = {("bool", False): "solve_pubo_bruteforce", ("bool", True): "solve_qubo_bruteforce",
          ("spin", False): "solve_puso_bruteforce", ("spin", True): "solve_quso_bruteforce"}
 PREDS = ["all", "parity", "none", "one", "card"]
